@@ -132,4 +132,307 @@ theorem proj_unproj_cap_pos (k : ℕ) (hk : k < 4) (x y : ℝ) (hy1 : 1 < y) (hy
     congr 2
     · push_cast; ring
     · ring
+
+/-! ## The projected domain -/
+
+/-- the image of the sphere in the projection plane, as the code parametrises it: `|x| < 8`, `|y| ≤ 2` and, in the caps
+    (`|y| > 1`), `|x|` inside one of the four Collignon triangles `-(2-|y|) ≤ |x| - (2k+1) < 2-|y|` (left edge included,
+    right edge — the same points of the sphere as the left edge of the next triangle — excluded) -/
+def InProjDomain (x y : ℝ) : Prop :=
+  |x| < 8 ∧ |y| ≤ 2 ∧
+    (1 < |y| → ∃ k : ℕ, k < 4 ∧ -(2 - |y|) ≤ |x| - (2 * k + 1) ∧ |x| - (2 * k + 1) < 2 - |y|)
+
+/-- first quadrant -/
+theorem proj_unproj_pos (x y : ℝ) (hx : 0 ≤ x) (hy : 0 ≤ y) (hd : InProjDomain x y)
+    (hpole : (Num.epsPole : ℝ) < 2 - y) :
+    ∃ lon lat, unproj (α := ℝ) x y = some (lon, lat) ∧ 0 ≤ lon ∧ lon < 2 * π ∧ ((1 < y → x ≠ y - 1) → 0 < x → 0 < lon) ∧
+      0 ≤ lat ∧ (0 < y → 0 < lat) ∧ lat ≤ π / 2 ∧ proj (α := ℝ) lon lat = some (x, y) := by
+  have hpi := pi_pos
+  obtain ⟨hx8, hy2, hcap⟩ := hd
+  rw [abs_of_nonneg hx] at hx8 hcap
+  rw [abs_of_nonneg hy] at hy2 hcap
+  by_cases hy1 : y ≤ 1
+  · obtain ⟨k, hk, h1, h2⟩ := facet_exists x hx 4 (by push_cast; linarith)
+    obtain ⟨a0, a1, a2, a3⟩ := proj_eq_pos k hk x y h1 h2 hy hy1
+    exact ⟨_, _, unproj_eq_pos k hk x y h1 h2 hy hy1, by positivity, by nlinarith, fun _ h => by positivity, a0, a2, a1, a3⟩
+  · rw [not_le] at hy1
+    obtain ⟨k, hk, t1, t2⟩ := hcap hy1
+    obtain ⟨lon, lat, hu, l0, l2, l1, b0, b1, hp⟩ := proj_unproj_cap_pos k hk x y hy1 hy2 hpole t1 t2
+    exact ⟨lon, lat, hu, l0, l2, fun h _ => l1 (h hy1), le_of_lt b0, fun _ => b0, b1, hp⟩
+
+/-- **`proj ∘ unproj = id` over ℝ on the projected domain, every sign quadrant**, away from the pole threshold.
+    The last hypothesis excludes, for negative `x` only, the left edge of the first triangle (`|x| = |y| - 1`, longitude 0):
+    there `unproj` returns the longitude `-0.0`, which does not exist over ℝ (see `proj_unproj_neg_zero`). -/
+theorem proj_unproj (x y : ℝ) (hd : InProjDomain x y) (hpole : (Num.epsPole : ℝ) < 2 - |y|)
+    (hneg : x < 0 → 1 < |y| → |x| ≠ |y| - 1) :
+    ∃ lon lat, unproj (α := ℝ) x y = some (lon, lat) ∧ -(π / 2) ≤ lat ∧ lat ≤ π / 2 ∧ |lon| < 2 * π ∧
+      proj (α := ℝ) lon lat = some (x, y) := by
+  have hpi := pi_pos
+  have hd' : InProjDomain |x| |y| := by unfold InProjDomain; rw [abs_abs, abs_abs]; exact hd
+  obtain ⟨L, B, hu, l0, l2, l1, b0, b1, b2, hp⟩ := proj_unproj_pos |x| |y| (abs_nonneg x) (abs_nonneg y) hd' hpole
+  refine ⟨sgn x L, sgn y B, ?_, ?_, ?_, ?_, ?_⟩
+  · rw [unproj_sym, hu, Option.map_some]
+  · unfold sgn; split
+    · rw [abs_of_nonneg b0]; linarith
+    · linarith
+  · unfold sgn; split
+    · rw [abs_of_nonneg b0]; linarith
+    · linarith
+  · rw [abs_sgn, abs_of_nonneg l0]; exact l2
+  · have := proj_sgn_lift x y L B |x| |y| l0 b0 hp
+      (fun h => l1 (fun h1 => hneg h h1) (abs_pos.mpr (ne_of_lt h))) (fun h => b1 (abs_pos.mpr (ne_of_lt h)))
+    rw [this, sgn_abs_self, sgn_abs_self]
+
+theorem epsPole_lt_small : (Num.epsPole : ℝ) < 1 / 1000 := by
+  show ((F64.toRat Gen.cEpsPole : ℚ) : ℝ) < 1 / 1000
+  rw [show Gen.cEpsPole = 0x3D3C25C268497682 from rfl,
+    toRat_of_fields _ 979 0xC25C268497682 (by decide) (by decide) (by decide) (by decide)]
+  norm_num
+
+/-- the hypotheses of `proj_unproj` are satisfiable in the equatorial band and in a (south-west) cap -/
+example : InProjDomain (1 / 2) (1 / 2) ∧ (Num.epsPole : ℝ) < 2 - |(1 / 2 : ℝ)| ∧
+    ((1 / 2 : ℝ) < 0 → 1 < |(1 / 2 : ℝ)| → |(1 / 2 : ℝ)| ≠ |(1 / 2 : ℝ)| - 1) := by
+  have := epsPole_lt_small
+  refine ⟨⟨by norm_num [abs_of_pos], by norm_num [abs_of_pos], ?_⟩, by norm_num [abs_of_pos]; linarith, by norm_num⟩
+  intro h; norm_num [abs_of_pos] at h
+example : InProjDomain (-5 / 2) (-3 / 2) ∧ (Num.epsPole : ℝ) < 2 - |(-3 / 2 : ℝ)| ∧
+    ((-5 / 2 : ℝ) < 0 → 1 < |(-3 / 2 : ℝ)| → |(-5 / 2 : ℝ)| ≠ |(-3 / 2 : ℝ)| - 1) := by
+  have := epsPole_lt_small
+  have e1 : |(-5 / 2 : ℝ)| = 5 / 2 := by rw [abs_of_neg (by norm_num)]; norm_num
+  have e2 : |(-3 / 2 : ℝ)| = 3 / 2 := by rw [abs_of_neg (by norm_num)]; norm_num
+  rw [InProjDomain, e1, e2]
+  refine ⟨⟨by norm_num, by norm_num, fun _ => ⟨1, by norm_num, by norm_num, by norm_num⟩⟩, by linarith, ?_⟩
+  intro _ _; norm_num
+
+/-- **real/float difference** (not a defect): for `x < 0` on the left edge of the first Collignon triangle (`|x| = |y| - 1`,
+    the meridian `lon = 0`), `unproj` over ℝ returns the longitude `-|0| = 0`, whose sign bit is lost, and `proj` sends it
+    to `(+|x|, y)`.  At `Float` the longitude is `-0.0`, the sign bit survives and `proj (unproj (x, y)) = (x, y)`. -/
+theorem proj_unproj_neg_zero (x y : ℝ) (hx : x < 0) (hy1 : 1 < |y|) (hy2 : |y| ≤ 2) (hedge : |x| = |y| - 1)
+    (hpole : (Num.epsPole : ℝ) < 2 - |y|) :
+    ∃ lat, unproj (α := ℝ) x y = some (0, lat) ∧ proj (α := ℝ) 0 lat = some (-x, y) := by
+  have ht : 0 < 2 - |y| := lt_trans epsPole_pos hpole
+  obtain ⟨hreg, hl0, hl1, hsig⟩ := capLat_props |y| hy1 hy2
+  have hu := unproj_cap_pos 0 (by norm_num) |x| |y| (by push_cast; linarith [abs_nonneg x]) (by push_cast; linarith) hy1 hy2 hpole
+  have hr : (|x| - (2 * ((0 : ℕ) : ℝ) + 1)) / (2 - |y|) = -1 := by
+    rw [div_eq_iff (ne_of_gt ht), hedge]; push_cast; ring
+  have hc : clamp1 (-1) = -1 := by unfold clamp1; norm_num
+  rw [hr, hc] at hu
+  have hu0 : unproj (α := ℝ) |x| |y| = some (0, capLat |y|) := by rw [hu]; congr 2; push_cast; ring
+  refine ⟨sgn y (capLat |y|), ?_, ?_⟩
+  · rw [unproj_sym, hu0, Option.map_some]; congr 2; unfold sgn; simp
+  · have hp := proj_cap_pos 0 (by norm_num) (-1) (capLat |y|) (le_refl _) (by norm_num) hreg hl1
+    rw [hsig] at hp
+    have hp0 : proj (α := ℝ) 0 (capLat |y|) = some (|x|, |y|) := by
+      have e : ((-1 : ℝ) + (2 * ((0 : ℕ) : ℝ) + 1)) * (π / 4) = 0 := by push_cast; ring
+      rw [e] at hp; rw [hp, hedge]; congr 2
+      · norm_num; ring
+      · ring
+    have := proj_sgn_lift 0 y 0 (capLat |y|) |x| |y| (le_refl _) (le_of_lt hl0) hp0 (fun h => absurd h (lt_irrefl _))
+      (fun _ => hl0)
+    rw [sgn_of_nonneg (le_refl (0 : ℝ)), sgn_of_nonneg (le_refl (0 : ℝ)), sgn_abs_self, abs_of_neg hx] at this
+    exact this
+
+example : ((-1 / 2 : ℝ) < 0) ∧ 1 < |(3 / 2 : ℝ)| ∧ |(3 / 2 : ℝ)| ≤ 2 ∧ |(-1 / 2 : ℝ)| = |(3 / 2 : ℝ)| - 1 := by
+  have e1 : |(-1 / 2 : ℝ)| = 1 / 2 := by rw [abs_of_neg (by norm_num)]; norm_num
+  have e2 : |(3 / 2 : ℝ)| = 3 / 2 := abs_of_pos (by norm_num)
+  rw [e1, e2]; norm_num
+
+/-- **the boundary `|x| = 8`** is identified with `x = 0`: `pm1_offset_decompose 8 = (1, -1)`, so in the equatorial band
+    `unproj (±8, y) = (0, lat)` and `proj` brings it back to `(0, y)`, not to `(±8, y)`: the domain of `proj_unproj` is
+    `|x| < 8` -/
+theorem proj_unproj_at_eight (y : ℝ) (hy : |y| ≤ 1) :
+    ∃ lat, unproj (α := ℝ) 8 y = some (0, lat) ∧ unproj (α := ℝ) (-8) y = some (0, lat) ∧
+      proj (α := ℝ) 0 lat = some (0, y) := by
+  have hpi := pi_pos
+  have h8 : unproj (α := ℝ) 8 |y| = some (0, Real.arcsin (|y| * (2 / 3))) := by
+    rw [unproj_pos 8 |y| 4 (by norm_num) (by norm_num) (by norm_num) (abs_nonneg y) (by linarith), if_pos hy]
+    congr 2; norm_num
+  obtain ⟨a0, a1, a2, a3⟩ := proj_eq_pos 0 (by norm_num) 0 |y| (by norm_num) (by norm_num) (abs_nonneg y) hy
+  rw [zero_mul] at a3
+  refine ⟨sgn y (Real.arcsin (|y| * (2 / 3))), ?_, ?_, ?_⟩
+  · rw [unproj_sym, abs_of_pos (by norm_num : (0 : ℝ) < 8), h8, Option.map_some]; congr 2; unfold sgn; simp
+  · rw [unproj_sym, abs_neg, abs_of_pos (by norm_num : (0 : ℝ) < 8), h8, Option.map_some]; congr 2; unfold sgn; simp
+  · have := proj_sgn_lift 0 y 0 _ 0 |y| (le_refl _) a0 a3 (fun h => absurd h (lt_irrefl _))
+      (fun h => a2 (abs_pos.mpr (ne_of_lt h)))
+    rw [sgn_of_nonneg (le_refl (0 : ℝ)), sgn_abs_self] at this
+    exact this
+
+/-! ## Outside the Collignon triangles and beyond the pole threshold (first quadrant) -/
+
+/-- right of the triangle of facet `k` (right edge included): the ratio is clamped to `+1`, `unproj` returns the meridian
+    `(2k+2)·π/4` between the two facets and `proj` maps it to the left edge of the next triangle (same parallel) -/
+theorem proj_unproj_clamped_right (k : ℕ) (hk : k < 4) (x y : ℝ) (h2 : x < 2 * k + 2) (hy1 : 1 < y) (hy2 : y ≤ 2)
+    (hpole : (Num.epsPole : ℝ) < 2 - y) (ht : 2 - y ≤ x - (2 * k + 1)) :
+    ∃ lat, unproj (α := ℝ) x y = some ((2 * k + 2) * (π / 4), lat) ∧
+      proj (α := ℝ) ((2 * k + 2) * (π / 4)) lat = some ((((2 * k + 3) % 8 : ℕ) : ℝ) - (2 - y), y) := by
+  have ht0 : 0 < 2 - y := lt_trans epsPole_pos hpole
+  obtain ⟨hreg, hl0, hl1, hsig⟩ := capLat_props y hy1 hy2
+  have hr : 1 ≤ (x - (2 * k + 1)) / (2 - y) := by rw [le_div_iff₀ ht0]; linarith
+  have hc : clamp1 ((x - (2 * k + 1)) / (2 - y)) = 1 := by
+    unfold clamp1
+    rcases lt_or_eq_of_le hr with h | h
+    · rw [if_pos h]
+    · rw [← h]; norm_num
+  refine ⟨capLat y, ?_, ?_⟩
+  · rw [unproj_cap_pos k hk x y (by linarith) h2 hy1 hy2 hpole, hc]; congr 2; ring
+  · have := proj_cap_pos (k + 1) (by omega) (-1) (capLat y) (le_refl _) (by norm_num) hreg hl1
+    rw [hsig] at this
+    rw [show ((2 * k + 2 : ℝ)) * (π / 4) = (-1 + (2 * ((k + 1 : ℕ) : ℝ) + 1)) * (π / 4) by push_cast; ring, this]
+    congr 2
+    · rw [show 2 * (k + 1) + 1 = 2 * k + 3 by ring]; ring
+    · ring
+
+/-- left of the triangle of facet `k`: the ratio is clamped to `-1`, `unproj` returns the meridian `2k·π/4` and `proj` maps
+    it to the left edge of the same triangle -/
+theorem proj_unproj_clamped_left (k : ℕ) (hk : k < 4) (x y : ℝ) (h1 : (2 * k : ℝ) ≤ x) (hy1 : 1 < y) (hy2 : y ≤ 2)
+    (hpole : (Num.epsPole : ℝ) < 2 - y) (ht : x - (2 * k + 1) < -(2 - y)) :
+    ∃ lat, unproj (α := ℝ) x y = some (2 * k * (π / 4), lat) ∧
+      proj (α := ℝ) (2 * k * (π / 4)) lat = some ((2 * k + 1 : ℝ) - (2 - y), y) := by
+  have ht0 : 0 < 2 - y := lt_trans epsPole_pos hpole
+  obtain ⟨hreg, hl0, hl1, hsig⟩ := capLat_props y hy1 hy2
+  have hr : (x - (2 * k + 1)) / (2 - y) < -1 := by rw [div_lt_iff₀ ht0]; linarith
+  have hc : clamp1 ((x - (2 * k + 1)) / (2 - y)) = -1 := by
+    unfold clamp1; rw [if_neg (by linarith), if_pos hr]
+  refine ⟨capLat y, ?_, ?_⟩
+  · rw [unproj_cap_pos k hk x y h1 (by linarith) hy1 hy2 hpole, hc]; congr 2; ring
+  · have := proj_cap_pos k (by omega) (-1) (capLat y) (le_refl _) (by norm_num) hreg hl1
+    rw [hsig, Nat.mod_eq_of_lt (by omega)] at this
+    rw [show (2 * k : ℝ) * (π / 4) = (-1 + (2 * (k : ℝ) + 1)) * (π / 4) by ring, this]
+    congr 2
+    · push_cast; ring
+    · ring
+
+/-- beyond the pole threshold (`2 - y ≤ EPS_POLE`, the pole `y = 2` included) `unproj` does not divide: it returns
+    `lon = x·π/4`, and `proj` contracts the abscissa towards the facet centre: `(xc + (x - xc)·(2 - y), y)` -/
+theorem proj_unproj_near_pole (k : ℕ) (hk : k < 4) (x y : ℝ) (h1 : (2 * k : ℝ) ≤ x) (h2 : x < 2 * k + 2) (hy2 : y ≤ 2)
+    (hpole : 2 - y ≤ (Num.epsPole : ℝ)) :
+    ∃ lat, unproj (α := ℝ) x y = some (x * (π / 4), lat) ∧
+      proj (α := ℝ) (x * (π / 4)) lat = some ((2 * k + 1 : ℝ) + (x - (2 * k + 1)) * (2 - y), y) := by
+  have hy1 : 1 < y := by linarith [epsPole_lt_small]
+  obtain ⟨hreg, hl0, hl1, hsig⟩ := capLat_props y hy1 hy2
+  refine ⟨capLat y, ?_, ?_⟩
+  · rw [unproj_pos x y k (by omega) h1 h2 (by linarith) hy2, if_neg (not_le.mpr hy1), if_neg (not_lt.mpr hpole),
+      Nat.mod_eq_of_lt (by omega)]
+    congr 3; push_cast; ring
+  · have := proj_cap_pos k (by omega) (x - (2 * k + 1)) (capLat y) (by linarith) (by linarith) hreg hl1
+    rw [hsig, Nat.mod_eq_of_lt (by omega)] at this
+    rw [show x * (π / 4) = (x - (2 * k + 1) + (2 * (k : ℝ) + 1)) * (π / 4) by ring, this]
+    congr 2
+    · push_cast; ring
+    · ring
+
+/-! ## Range of `proj` -/
+
+/-- **range of `proj`** for every latitude and every longitude with `|lon|·4/π < 256` (`|lon| < 64π`, the range on which the
+    `as u8` of `pm1_offset_decompose` does not saturate): `|x| < 8` (the value 8 is never produced), `|y| ≤ 2`, `x` carries
+    the sign of `lon`, `y` the sign of `lat` -/
+theorem proj_range (lon lat : ℝ) (hlon : |lon| * (4 / π) < 256) (hlat0 : -(π / 2) ≤ lat) (hlat1 : lat ≤ π / 2) :
+    ∃ X Y, proj (α := ℝ) lon lat = some (X, Y) ∧ |X| < 8 ∧ |Y| ≤ 2 ∧ (0 ≤ lon → 0 ≤ X) ∧ (lon < 0 → X ≤ 0) ∧
+      (0 ≤ lat → 0 ≤ Y) ∧ (lat < 0 → Y < 0) ∧ (lon < 0 → |lon| < 2 * π → X < 0) := by
+  have hpi := pi_pos
+  have ha0 := abs_nonneg lon
+  have hb0 := abs_nonneg lat
+  have hb1 : |lat| ≤ π / 2 := abs_le.mpr ⟨hlat0, hlat1⟩
+  have hx0 : 0 ≤ |lon| * (4 / π) := by positivity
+  obtain ⟨k, hk, h1, h2⟩ := facet_exists _ hx0 128 (by push_cast; linarith)
+  have hq := proj_pos' |lon| |lat| k hk ha0 h1 h2 hb0 hb1
+  obtain ⟨b1, b2, b3, b4, b5, b6, _⟩ := projQ_bounds k _ |lat| h1 h2 hb0 hb1
+  set X' := (projQ k (|lon| * (4 / π)) |lat|).1
+  set Y' := (projQ k (|lon| * (4 / π)) |lat|).2
+  refine ⟨sgn lon X', sgn lat Y', by rw [proj_sym, hq, Option.map_some], ?_, ?_, ?_, ?_, ?_, ?_, ?_⟩
+  · rw [abs_sgn, abs_of_nonneg b1]; exact b2
+  · rw [abs_sgn, abs_of_nonneg b3]; exact b4
+  · intro h; rw [sgn_of_nonneg h]; exact b1
+  · intro h; rw [sgn_of_neg h]; simp
+  · intro h; rw [sgn_of_nonneg h]; exact b3
+  · intro h; rw [sgn_of_neg h, abs_of_nonneg b3]; linarith [b5 (abs_pos.mpr (ne_of_lt h))]
+  · intro h h2π
+    have hk4 : k < 4 := by
+      have : (2 * k : ℝ) < 2 * 4 := by
+        have := (lon_scaled_bounds |lon| ha0 h2π).2
+        push_cast at this; linarith
+      have : (k : ℝ) < 4 := by linarith
+      exact_mod_cast this
+    rw [sgn_of_neg h, abs_of_nonneg b1]
+    linarith [b6 hk4 (mul_pos (abs_pos.mpr (ne_of_lt h)) (by positivity))]
+
+example : |(1 : ℝ)| * (4 / π) < 256 := by
+  have := Real.two_le_pi
+  rw [abs_one, one_mul, div_lt_iff₀ (by positivity)]; linarith
+
+/-- `proj` has period `2π` in the longitude (as long as `as u8` does not saturate) -/
+theorem proj_periodic (lon lat : ℝ) (hlon0 : 0 ≤ lon) (hlon : (lon + 2 * π) * (4 / π) < 256) :
+    proj (α := ℝ) (lon + 2 * π) lat = proj (α := ℝ) lon lat := by
+  have hpi := pi_pos
+  by_cases hc : checkLat (α := ℝ) lat = true
+  · obtain ⟨hlat0, hlat1⟩ := (checkLat_iff lat).mp hc
+    have hb0 := abs_nonneg lat
+    have hb1 : |lat| ≤ π / 2 := abs_le.mpr ⟨hlat0, hlat1⟩
+    have e8 : (lon + 2 * π) * (4 / π) = lon * (4 / π) + 8 := by field_simp; ring
+    have hx0 : 0 ≤ lon * (4 / π) := by positivity
+    obtain ⟨k, hk, h1, h2⟩ := facet_exists _ hx0 124 (by push_cast; linarith)
+    have hq := proj_pos' lon |lat| k (by omega) hlon0 h1 h2 hb0 hb1
+    have hq' := proj_pos' (lon + 2 * π) |lat| (k + 4) (by omega) (by positivity) (by rw [e8]; push_cast; linarith)
+      (by rw [e8]; push_cast; linarith) hb0 hb1
+    have hQ : projQ (k + 4) ((lon + 2 * π) * (4 / π)) |lat| = projQ k (lon * (4 / π)) |lat| := by
+      unfold projQ
+      rw [e8, show (2 * (k + 4) + 1) % 8 = (2 * k + 1) % 8 by omega]
+      push_cast
+      rw [show lon * (4 / π) + 8 - (2 * ((k : ℝ) + 4) + 1) = lon * (4 / π) - (2 * k + 1) by ring]
+    rw [proj_sym, proj_sym lon, abs_of_nonneg hlon0, abs_of_nonneg (by positivity : 0 ≤ lon + 2 * π), hq, hq', hQ,
+      Option.map_some, Option.map_some, sgn_of_nonneg hlon0, sgn_of_nonneg (by positivity : 0 ≤ lon + 2 * π)]
+  · rw [Bool.not_eq_true] at hc
+    unfold proj; simp [hc]
+
+/-- **at `lon = 2π` exactly** the model gives the same point as at `lon = 0` (`8 as u8 = 8`, odd floor 9, offset
+    `9 & 7 = 1`, `pm1 = -1`): `x = 0` in the equatorial band, never `8` -/
+theorem proj_two_pi (lat : ℝ) : proj (α := ℝ) (2 * π) lat = proj (α := ℝ) 0 lat := by
+  have hpi := pi_pos
+  have := proj_periodic 0 lat (le_refl _) (by
+    rw [zero_add, show 2 * π * (4 / π) = 8 by field_simp; ring]; norm_num)
+  rwa [zero_add] at this
+
+theorem proj_zero_equatorial (lat : ℝ) (h : |lat| ≤ Real.arcsin (2 / 3)) :
+    proj (α := ℝ) 0 lat = some (0, 3 / 2 * Real.sin lat) := by
+  have hpi := pi_pos
+  have ha := Real.arcsin_le_pi_div_two (2 / 3)
+  obtain ⟨h1, h2⟩ := abs_le.mp h
+  have := proj_eq_spec 0 lat (le_refl _) (by positivity) (by linarith) (by linarith)
+  rw [this]; unfold projSpec
+  have hs : |Real.sin lat| ≤ 2 / 3 := by
+    rw [abs_sin_eq lat (by linarith) (by linarith)]
+    exact (le_transition_iff |lat| (by linarith [abs_nonneg lat]) (by linarith)).mp h
+  simp only [hs, if_true]; congr 2; simp
+
+/-- beyond `|lon|·4/π ≥ 256` the conversion `as u8` saturates at 255 and the range property is lost (`lon > 200 rad`;
+    the documentation of `proj` only promises "reasonably large" longitudes) -/
+theorem pm1OffsetDecompose_saturated (x : ℝ) (h : 256 ≤ x) :
+    pm1OffsetDecompose (α := ℝ) x = (7, x - 255) := by
+  unfold pm1OffsetDecompose
+  show ((min ⌊max x 0⌋₊ 255 ||| 1) &&& 7, x - (((min ⌊max x 0⌋₊ 255 ||| 1 : ℕ)) : ℝ)) = _
+  rw [max_eq_left (by linarith)]
+  have : 255 ≤ ⌊x⌋₊ := Nat.le_floor (by push_cast; linarith)
+  rw [min_eq_right this, show (255 ||| 1 : ℕ) = 255 by decide, show (255 &&& 7 : ℕ) = 7 by decide]
+  norm_num
+
+/-- consequence: on the equator, for `lon ≥ 64π`, `proj` returns `x = lon·4/π − 248 ≥ 8`, outside the range -/
+theorem proj_saturated (lon : ℝ) (h : 256 ≤ lon * (4 / π)) :
+    proj (α := ℝ) lon 0 = some (lon * (4 / π) - 248, 0) ∧ 8 ≤ lon * (4 / π) - 248 := by
+  have hpi := pi_pos
+  have hlon : 0 ≤ lon := by
+    by_contra hn; rw [not_le] at hn
+    have : lon * (4 / π) < 0 := mul_neg_of_neg_of_pos hn (by positivity)
+    linarith
+  have hchk : checkLat (α := ℝ) 0 = true := by rw [checkLat_iff]; constructor <;> linarith
+  have hs_lon : Num.signBit lon = false := by rw [r_signBit]; simpa using hlon
+  have hs_lat : Num.signBit (0 : ℝ) = false := by rw [r_signBit]; simp
+  have hreg : (0 : ℝ) ≤ Real.arcsin (2 / 3) := Real.arcsin_nonneg.mpr (by norm_num)
+  refine ⟨?_, by linarith⟩
+  unfold proj
+  simp only [hchk, Bool.not_true, Bool.false_eq_true, if_false, r_abs, abs_of_nonneg hlon, abs_zero,
+    hs_lon, hs_lat, r_fourOverPi, pm1OffsetDecompose_saturated _ h, isInEquatorialRegion, r_le, r_transitionLat,
+    applyOffsetAndSigns, r_orSign_false, r_ofNat, hreg, decide_true, if_true, projCea, r_sin, r_ootz, Real.sin_zero]
+  congr 2
+  · push_cast; ring
+  · ring
 end Hpx.Proj
